@@ -69,6 +69,9 @@ HAND = [
 
 # heavy / ionic / isotopic / stereo / mapped family
 SPECIAL = [
+    # a side written with aromatic (lower-case) atoms only
+    "C1=CC=CC=C1>>c1ccccc1", "c1ccccc1.[H][H].[H][H].[H][H]>>C1CCCCC1", "c1ccoc1.[H][H].[H][H]>>C1CCOC1", "c1ccccc1>>C1CCCCC1",
+    "c1ccncc1.O>>c1ccncc1.O", "C1CCCCC1>>c1ccccc1",
     "[U]>>[Th]", "[U]>>[U]", "F[U](F)(F)(F)(F)F>>F[U](F)(F)F", "[Og]>>[Og].[Og]",
     "[13CH3]CO>>[13CH3]C=O", "[2H]OC(C)=O>>CC(=O)O", "C[C@H](O)CC>>C[C@@H](O)CC",
     "C[C@H](N)C(=O)OC>>C[C@H](N)C(=O)O", "N[C@@H](C)C(=O)O.CO>>N[C@@H](C)C(=O)OC",
